@@ -163,6 +163,32 @@ def run(ctx):
                        between(['call:*::last'], ['p#2']),
                        {'eq', 'gt'}, key='list:beacon-exists')
         ctx.arg_origin('b', lf_, IMF + '::list_all_in_dir', 0, require=['p#1'], desc='(dir) <- dirpath')
+        # files beyond the beacon decide nothing: the beacon-exists test and the returned list both look at the FILTERED listing
+        # (added after seed C12-4: the test was made on the raw listing, so a missing beacon trio went unnoticed whenever later files existed)
+        from engine import loop_info, return_assigns, ok_payload
+        FILT = ('call:*Iterator>::filter', 'call:*Iterator::filter', 'call:*::retain', 'call:*::take_while', 'call:*::filter_map', 'call:*::partition',
+                'call:*::split_off', 'call:*::truncate', 'call:*::range', 'call:*::drain', 'call:*::extract_if', 'call:*::skip_while', 'call:*::position',
+                'call:*::partition_point', 'call:*::binary_search*', 'call:*::rposition', 'call:*::rfind', 'call:*::find')
+        body = lf_.body
+        gs = [g for g in find_guards(body) if between(['call:*::list_all_in_dir'], ['p#2'])(g)]
+        loop_filter = [g for g in gs if loop_info(body, g.bb)]
+
+        def filtered(og):
+            return any(has(og, p_) for p_ in FILT) or (bool(loop_filter) and (has(og, 'call:*::push') or has(og, 'call:*::insert') or has(og, 'call:*::extend')))
+        tests = [g for g in gs if not loop_info(body, g.bb)]
+        raw_tests = [g.line for g in tests if not filtered(g.a_orig | g.b_orig)]
+        rets = []
+        for sp in return_assigns(body, 'ok')[0]:
+            x = ok_payload(body, sp)
+            if x is not None:
+                rets.append(fn_origins(lf_, x, True))
+        raw_rets = [1 for og in rets if has(og, 'call:*::list_all_in_dir') and not filtered(og)]
+        inst = 'list_immutable_files_to_process: the beacon-exists test and the returned files are taken from the listing filtered by the beacon'
+        if (tests or loop_filter) and rets and not raw_tests and not raw_rets:
+            R.ok('b', 'R7', inst, '%d test(s), %d returned list(s)' % (len(tests), len(rets)), lf_.loc())
+        else:
+            R.violation('b', 'R7', inst, 'list:beyond-beacon', 'comparisons of the listing with the beacon: %d (on the unfiltered listing: lines %s); returned lists %d (unfiltered: %d): '
+                        'files beyond the beacon change the outcome' % (len(gs), raw_tests, len(rets), len(raw_rets)), lf_.loc())
 
 
     # the listing looks at the direct children of the immutable directory only
